@@ -29,6 +29,8 @@ pub struct Args {
     pub replay_verify: Option<PathBuf>,
     pub hashes: bool,
     pub no_evidence: bool,
+    /// debugging: write the generated case of this run seed in replay format and exit
+    pub dump_case: Option<u64>,
 }
 
 thread_local! {
@@ -219,6 +221,12 @@ pub fn main_for(prop: Arc<dyn Property>, args: &Args) -> i32 {
     let root = root_dir();
     if let Some(p) = &args.replay.clone().or(args.replay_verify.clone()) {
         return replay(&prop, p, args.replay_verify.is_some());
+    }
+    if let Some(rs) = args.dump_case {
+        let case = prop.generate(rs, args.tier);
+        let body = json!({"property": prop.id(), "seed": rs, "class": "debug", "detail": "", "history_index": 0, "case": case});
+        println!("{}", serde_json::to_string_pretty(&body).unwrap());
+        return 0;
     }
     let t_start = Instant::now();
     let id = prop.id();
@@ -601,6 +609,7 @@ pub fn parse_args(argv: &[String]) -> Result<Args, String> {
         replay_verify: None,
         hashes: false,
         no_evidence: false,
+        dump_case: None,
     };
     let mut i = 1;
     while i < argv.len() {
@@ -638,6 +647,10 @@ pub fn parse_args(argv: &[String]) -> Result<Args, String> {
             }
             "--hashes" => a.hashes = true,
             "--no-evidence" => a.no_evidence = true,
+            "--dump-case" => {
+                a.dump_case = Some(need(i)?.parse().map_err(|e| format!("bad run seed: {e}"))?);
+                i += 1;
+            }
             o => return Err(format!("unknown argument {o}")),
         }
         i += 1;
